@@ -67,7 +67,8 @@ func runC17(o *Out, r *rand.Rand) {
 						if p[n-1] != n-1 || (!thorough() && n >= 3 && r.Intn(3) != 0) {
 							continue
 						}
-						c17CaseCtx(o, op, append([]fakeOutcome(nil), vec...), p, true)
+						c17CaseCtx(o, op, append([]fakeOutcome(nil), vec...), p, "deadline")
+						c17CaseCtx(o, op, append([]fakeOutcome(nil), vec...), p, "cancel")
 					}
 				}
 			}
@@ -79,13 +80,15 @@ func runC17(o *Out, r *rand.Rand) {
 var c17Counter int
 
 func c17Case(o *Out, op string, vec []fakeOutcome, order []int) {
-	c17CaseCtx(o, op, vec, order, false)
+	c17CaseCtx(o, op, vec, order, "")
 }
 
-// withDeadline: the caller's context ends (a deadline the harness triggers by hand) once every
+// ending = "deadline" / "cancel": the caller's context ends (a deadline the harness triggers by hand, or a
+// plain cancellation – however a caller gives up, a server that has not answered has not succeeded) once every
 // server that answers at all has answered; the servers whose outcome is foSlow have not, and their
 // calls end with the context's error – a little later (slowWindUp)
-func c17CaseCtx(o *Out, op string, vec []fakeOutcome, order []int, withDeadline bool) {
+func c17CaseCtx(o *Out, op string, vec []fakeOutcome, order []int, ending string) {
+	withDeadline := ending != ""
 	n := len(vec)
 	sc := &fakeScenario{perAddr: map[string]fakeOutcome{}, gates: map[string]chan struct{}{}}
 	for i := 0; i < 8; i++ {
@@ -107,11 +110,20 @@ func c17CaseCtx(o *Out, op string, vec []fakeOutcome, order []int, withDeadline 
 	}
 	var ctx context.Context = context.Background()
 	var dctx *deadlineCtx
-	if withDeadline {
+	endCtx := func() {}
+	if ending == "deadline" {
 		dctx = &deadlineCtx{deadline: time.Now().Add(time.Hour), done: make(chan struct{})}
 		ctx = dctx
+		endCtx = dctx.expire
+		sc.slowWindUp = 4 * time.Millisecond
+	} else if ending == "cancel" {
+		cctx, cancel := context.WithCancel(context.Background())
+		defer cancel()
+		ctx = cctx
+		endCtx = cancel
 		sc.slowWindUp = 4 * time.Millisecond
 	}
+	ended := false
 	setScenario(sc)
 	xc, _ := mkXClient(n, client.Failfast, 0, client.RandomSelect)
 	defer xc.Close()
@@ -137,10 +149,10 @@ func c17CaseCtx(o *Out, op string, vec []fakeOutcome, order []int, withDeadline 
 	var res result
 	returned := false
 	for _, i := range order {
-		if withDeadline && vec[i] == foSlow && dctx != nil {
-			// everything that answers has answered (slow servers come last in `order`): the deadline passes
-			dctx.expire()
-			dctx = nil
+		if withDeadline && vec[i] == foSlow && !ended {
+			// everything that answers has answered (slow servers come last in `order`): the caller gives up
+			endCtx()
+			ended = true
 		}
 		close(gates[i])
 		if !returned {
@@ -184,7 +196,8 @@ func c17CaseCtx(o *Out, op string, vec []fakeOutcome, order []int, withDeadline 
 			}
 		}
 		rp["servers_that_never_answer_before_the_callers_deadline"] = sl
-		o.Count("with-deadline." + op)
+		rp["callers_context_ended_by"] = ending
+		o.Count("with-" + ending + "." + op)
 	}
 	nontrivial := !allOK
 	o.Count("op." + op)
